@@ -1,1 +1,274 @@
-From LW Require Import Model.Analyzer.
+(* C05 — Simulator, Sampler, Analyzer and QuickSampler tell one consistent story.
+   Statements only (proofs: Proofs/AnalyzerP.v; models: Model/Analyzer.v, Model/Fock.v).
+
+   Conventions.  n = circuit modes (herald modes included), l = loss modes,
+   U = U_full (dimension n + l), hin / hout = circuit.heralds["input"/"output"],
+   m = n - #heralds = circuit.input_modes.  [prob_of o U ins outs] is
+   |permanent|^2 / (prod ins! * prod outs!).  The statements that mention the
+   Sampler are over Coq's reals ([rops], complex = [cops]) with the Sampler's
+   probability threshold set to 0 (the code truncates at 1e-9: states below the
+   threshold are dropped there, which the correspondence run tolerates as
+   1e-9 * #states); they hold for both back ends [b].
+   [sampler_p b n l U hin i k] is Sampler(circuit, i).probability_distribution[k]
+   (0 for an absent key).
+
+   State of the current tree: the Analyzer does NOT work on heralds that carry
+   photons, nor on heralds whose input mode differs from the output mode
+   (C05_analyzer_total_refuted_photons, C05_analyzer_total_refuted_modes); everything else is proved without
+   restriction on the heralds. *)
+From Coq Require Import ZArith List Bool Arith Lia Reals.
+From LW Require Import Base.Sx Base.Num Base.Sums Base.Mat Base.RInst Model.State Model.Fock Model.Analyzer
+     Proofs.StateP Proofs.PermP Proofs.SimP Proofs.FockUnitP Proofs.AnalyzerP.
+Import ListNotations.
+Open Scope nat_scope.
+
+(* ---- the Sampler distribution is the marginal over the loss modes ---- *)
+(* for every matrix, herald dictionary, loss-mode count and input: the value at
+   a pattern k of the circuit modes is the sum over ALL occupations of the loss
+   modes holding the missing photons.  (The vacuum pattern of a lossy circuit is
+   assigned 1 - total by the code, hence the unitarity hypothesis there.) *)
+Theorem C05_sampler_is_marginal_over_loss_modes :
+  forall b n l (U : @mat C) hin input d,
+    0 < n -> length hin <= n ->
+    sampler_dist rops b 0%R n l U hin input = Ok d ->
+    exists fi, add_heralds_to_state input hin = Ok fi /\ length fi = n /\
+      forall k, length k = n -> osum k <= osum (znat fi) -> (l = 0 -> osum k = osum (znat fi)) ->
+        (lunit cops (n + l) U \/ 0 < osum k \/ osum (znat fi) = 0) ->
+        pd_val rops d k =
+        suml rops (loss_cfgs l (osum (znat fi) - osum k))
+             (fun ls => prob_of rops U (znat fi ++ repeat 0 l) (k ++ ls)).
+Proof. exact sampler_marginal. Qed.
+Print Assumptions C05_sampler_is_marginal_over_loss_modes.
+
+(* ---- Analyzer: which outputs are listed ---- *)
+(* an output is listed iff it is a candidate (m modes; the photon number handed
+   to _generate_outputs, or at most that many for a lossy circuit) and passes the
+   post-selection.  NB the photon number is that of the first input INCLUDING
+   the photons of the input heralds: this is the defect behind
+   C05_analyzer_total_refuted_photons. *)
+Theorem C05_analyzer_lists_exactly_the_postselected_outputs :
+  forall (K : Type) (o : ops K), StarRing o ->
+  forall n l (U : @mat (K * K)) hin hout ps inputs expected r,
+    analyze o n l U hin hout ps inputs expected = Ok r ->
+    exists i0 fi0, hd_error inputs = Some i0 /\ add_heralds_to_state i0 hin = Ok fi0 /\
+      forall x, In x (ar_outputs r) <->
+                exists c, x = zs c /\ length c = n - length hin /\ osum c <= osum (znat fi0) /\
+                          (l = 0 -> osum c = osum (znat fi0)) /\ ps x = Ok true.
+Proof. exact (fun K o SR => @analyzer_outputs_iff K o SR). Qed.
+Print Assumptions C05_analyzer_lists_exactly_the_postselected_outputs.
+
+(* ---- Analyzer: every entry, performance, error rate (any scalar ring) ---- *)
+(* entry (input, output) = sum over the loss-mode occupations holding the lost
+   photons of prob_of(full input, full output ++ occupation); performance = sum
+   of the array / number of inputs; error_rate as computed by an_error_rate *)
+Theorem C05_analyzer_result :
+  forall (K : Type) (o : ops K), StarRing o ->
+  forall n l (U : @mat (K * K)) hin hout ps inputs expected r,
+    analyze o n l U hin hout ps inputs expected = Ok r ->
+    hd_eqb hin hout = true /\
+    exists fins,
+      an_process_inputs (n - length hin) l hin inputs = Ok fins /\
+      n - length hin <> 0 /\
+      ar_outputs r = map zs (filter (fun c => ps_acc ps (zs c))
+                                    (an_candidates (n - length hin) l (an_nphotons fins))) /\
+      ar_outputs r <> [] /\
+      Forall2 (fun x fo => add_heralds_to_state x hout = Ok fo) (ar_outputs r) (ar_full r) /\
+      Forall2 (fun fin row =>
+                 Forall2 (fun fo p => osum (znat fo) <= osum fin /\ (l = 0 -> osum (znat fo) = osum fin) /\
+                                      p = entry_val (o:=o) l U fin (znat fo))
+                         (ar_full r) row)
+              fins (ar_probs r) /\
+      ar_perf r = kdivn o (ksum o (map (ksum o) (ar_probs r))) (length inputs) /\
+      match expected with
+      | None => ar_err r = None
+      | Some e => exists x, ar_err r = Some x /\ an_error_rate o (ar_probs r) inputs (ar_outputs r) e = Ok x
+      end.
+Proof. exact (fun K o SR => @analyze_spec K o SR). Qed.
+Print Assumptions C05_analyzer_result.
+
+(* ---- analyzer = sampler ---- *)
+(* for every circuit matrix, heralds, loss modes, post-selection and input list
+   the Analyzer accepts: the Sampler accepts every input and the row of input i
+   is the Sampler's probability of each listed output with its heralds inserted.
+   Guard: U_full unitary (always, C01) or no listed output is the vacuum. *)
+Theorem C05_analyzer_eq_sampler :
+  forall b n l (U : @mat C) hin hout ps inputs expected r,
+    0 < n -> length hin <= n ->
+    analyze rops n l U hin hout ps inputs expected = Ok r ->
+    (lunit cops (n + l) U \/ Forall (fun fo => 0 < osum (znat fo)) (ar_full r)) ->
+    Forall2 (fun i row => sampler_accepts b n l U hin i /\
+                          row = map (fun fo => sampler_p b n l U hin i (znat fo)) (ar_full r))
+            inputs (ar_probs r).
+Proof. exact analyzer_eq_sampler. Qed.
+Print Assumptions C05_analyzer_eq_sampler.
+
+(* performance = mean over the inputs of the accepted total (of the Sampler's probabilities) *)
+Theorem C05_performance_is_mean_accepted_total :
+  forall b n l (U : @mat C) hin hout ps inputs expected r,
+    0 < n -> length hin <= n ->
+    analyze rops n l U hin hout ps inputs expected = Ok r ->
+    (lunit cops (n + l) U \/ Forall (fun fo => 0 < osum (znat fo)) (ar_full r)) ->
+    inputs <> [] /\
+    ar_perf r = (suml rops (ar_probs r) (fun row => ksum rops row) / IZR (Z.of_nat (length inputs)))%R /\
+    ar_perf r = (suml rops inputs (fun i => suml rops (ar_full r) (fun fo => sampler_p b n l U hin i (znat fo)))
+                 / IZR (Z.of_nat (length inputs)))%R.
+Proof. exact performance_spec. Qed.
+Print Assumptions C05_performance_is_mean_accepted_total.
+
+(* error_rate = 1 - mean_i ( sum_{o in expected(i), o listed} p_io / sum_o p_io ).
+   The code has NO guard on the row total: a zero row with a listed expected
+   output gives nan (= None); a missing key of `expected` is a KeyError. *)
+Theorem C05_error_rate_is_one_minus_expected_fraction :
+  forall n l (U : @mat C) hin hout ps inputs e r,
+    analyze rops n l U hin hout ps inputs (Some e) = Ok r ->
+    (forall s, In s inputs -> exists x, exp_lookup e s = Some x) /\
+    exists x, ar_err r = Some x /\
+      match x with
+      | Some v => v = (1 - ksum rops (frac_list (o:=rops) inputs (ar_probs r) (ar_outputs r) e)
+                           / IZR (Z.of_nat (length inputs)))%R
+      | None => exists row, In row (ar_probs r) /\ ksum rops row = 0%R
+      end.
+Proof. exact error_rate_spec. Qed.
+Print Assumptions C05_error_rate_is_one_minus_expected_fraction.
+
+(* ---- quick sampler = sampler conditioned and renormalised ---- *)
+(* candidates: the input's modes, the input's photon number (no photon lost),
+   non-negative occupations, max = 1 for threshold detection, post-selection *)
+Theorem C05_quick_sampler_candidates :
+  forall ps pc input x,
+    length input <> 0 -> Forall (fun v => (0 <= v)%Z) input ->
+    (In x (qs_cands ps pc input) <->
+     (length x = length input /\ Forall (fun v => (0 <= v)%Z) x /\ zsum x = zsum input /\
+      (pc = true \/ zmax x = 1%Z)) /\ ps x = Ok true).
+Proof. exact qs_cands_iff. Qed.
+Print Assumptions C05_quick_sampler_candidates.
+
+(* "max = 1" is "at most one photon per mode" as soon as there is a photon *)
+Theorem C05_threshold_filter_is_at_most_one_photon_per_mode :
+  forall s, Forall (fun v => (0 <= v)%Z) s -> (1 <= zsum s)%Z ->
+            (zmax s = 1%Z <-> Forall (fun v => (v <= 1)%Z) s).
+Proof. exact zmax_one_iff. Qed.
+Print Assumptions C05_threshold_filter_is_at_most_one_photon_per_mode.
+
+(* the distribution: candidates of positive Sampler probability (heralds
+   inserted = heralds satisfied, herald modes removed), each with its Sampler
+   probability divided by the total over all candidates.  The code never
+   divides by zero: an empty dictionary raises EmulatorError instead. *)
+Theorem C05_quick_sampler_is_conditioned_sampler :
+  forall b n l (U : @mat C) hin hout ps pc input pd,
+    0 < n -> length hin <= n -> length hout = length hin ->
+    quick_sampler rops 0%R n l U hin hout ps pc input = Ok pd ->
+    let cands := qs_cands ps pc input in
+    let w := qs_sw b n l U hin hout input in
+    let W := suml rops cands w in
+    sampler_accepts b n l U hin input /\ (0 < W)%R /\
+    pd = map (fun x => (x, (w x / W)%R)) (filter (fun x => klt rops 0%R (w x)) cands).
+Proof. exact quick_sampler_spec. Qed.
+Print Assumptions C05_quick_sampler_is_conditioned_sampler.
+
+(* ---- squared Simulator amplitudes = Sampler probabilities, lossless ---- *)
+(* entries of Simulator.simulate are (permanent, factor) with amplitude =
+   permanent / sqrt(factor) *)
+Theorem C05_sim_sq_eq_sampler :
+  forall b n (U : @mat C) hin hout inputs outputs outs rows,
+    0 < n - length hin -> herald_ok n hin -> herald_ok n hout ->
+    length hout = length hin -> hd_photons hin = hd_photons hout ->
+    simulate rops n 0 U hin hout (n - length hin) inputs outputs = Ok (outs, rows) ->
+    Forall2 (fun i row =>
+               sampler_accepts b n 0 U hin i /\
+               Forall2 (fun x e => exists fo, add_heralds_to_state x hout = Ok fo /\
+                                   (cnorm2 rops (fst e) / IZR (Z.of_nat (snd e)))%R = sampler_p b n 0 U hin i (znat fo))
+                       outs row)
+            inputs rows.
+Proof. exact sim_sq_eq_sampler. Qed.
+Print Assumptions C05_sim_sq_eq_sampler.
+
+(* ---- totality ---- *)
+(* REFUTED on the current tree: "each object works on every circuit the others
+   accept, including circuits whose heralds carry photons". *)
+Theorem C05_analyzer_total_refuted_photons :
+  forall (K : Type) (o : ops K) (U : @mat (K * K)),
+    (exists r, simulate o 2 0 U [(1, 1%Z)] [(1, 1%Z)] 1 [[1%Z]] None = Ok r) /\
+    (exists d, sampler_dist o Permanent (k0 o) 2 0 U [(1, 1%Z)] [1%Z] = Ok d) /\
+    analyze o 2 0 U [(1, 1%Z)] [(1, 1%Z)] (fun _ => Ok true) [[1%Z]] None = Err ValueError /\
+    analyze o 2 1 U [(1, 1%Z)] [(1, 1%Z)] (fun _ => Ok true) [[1%Z]] None = Err PhotonNumberError.
+Proof. exact (fun K o => @analyzer_total_refuted_photons K o). Qed.
+Print Assumptions C05_analyzer_total_refuted_photons.
+
+Theorem C05_analyzer_total_refuted_modes :
+  forall (K : Type) (o : ops K) (U : @mat (K * K)),
+    (exists r, simulate o 2 0 U [(1, 0%Z)] [(0, 0%Z)] 1 [[1%Z]] None = Ok r) /\
+    (exists d, sampler_dist o Permanent (k0 o) 2 0 U [(1, 0%Z)] [1%Z] = Ok d) /\
+    analyze o 2 0 U [(1, 0%Z)] [(0, 0%Z)] (fun _ => Ok true) [[1%Z]] None = Err OtherError.
+Proof. exact (fun K o => @analyzer_total_refuted_modes K o). Qed.
+Print Assumptions C05_analyzer_total_refuted_modes.
+
+(* what does hold: zero-photon heralds on equal modes *)
+Theorem C05_analyzer_total_partial :
+  forall (K : Type) (o : ops K) n l (U : @mat (K * K)) hin hout ps inputs expected,
+    0 < n - length hin -> herald_ok n hin -> herald_ok n hout ->
+    hd_eqb hin hout = true ->
+    Forall (fun kv => snd kv = 0%Z) hin -> Forall (fun kv => snd kv = 0%Z) hout ->
+    inputs <> [] -> Forall (valid_state (n - length hin)) inputs -> all_equal (map zsum inputs) = true ->
+    (forall s, exists b, ps s = Ok b) ->
+    (exists c, In c (an_candidates (n - length hin) l (Z.to_nat (zsum (hd [] inputs)))) /\ ps (zs c) = Ok true) ->
+    match expected with
+    | Some e => forall s, In s inputs -> exp_lookup e s <> None
+    | None => True
+    end ->
+    exists r, analyze o n l U hin hout ps inputs expected = Ok r.
+Proof. exact (fun K o => @analyzer_total_partial K o). Qed.
+Print Assumptions C05_analyzer_total_partial.
+
+(* the QuickSampler works on every circuit/input the Simulator accepts (any
+   heralds, lossy circuits included) up to its two documented refusals *)
+Theorem C05_quick_sampler_total :
+  forall (K : Type) (o : ops K) eps n l (U : @mat (K * K)) hin hout ps pc input,
+    0 < n - length hin -> herald_ok n hin -> herald_ok n hout ->
+    length hout = length hin -> hd_photons hin = hd_photons hout ->
+    valid_state (n - length hin) input ->
+    (forall s, exists b, ps s = Ok b) ->
+    (exists x fi, In x (qs_cands ps pc input) /\ add_heralds_to_state input hin = Ok fi /\
+                  klt o eps (qs_w o l U hout (znat fi ++ repeat 0 l) x) = true) ->
+    exists pd, quick_sampler o eps n l U hin hout ps pc input = Ok pd.
+Proof. exact (fun K o => @quick_sampler_total K o). Qed.
+Print Assumptions C05_quick_sampler_total.
+
+(* recorded: threshold detection on a vacuum input is refused (max(s) == 1) *)
+Theorem C05_quick_sampler_vacuum_threshold_rejected :
+  forall (K : Type) (o : ops K) eps (U : @mat (K * K)),
+    (exists d, sampler_dist o Permanent eps 2 0 U [] [0%Z; 0%Z] = Ok d) /\
+    quick_sampler o eps 2 0 U [] [] (fun _ => Ok true) false [0%Z; 0%Z] = Err ValueError.
+Proof. exact (fun K o => @quick_sampler_vacuum_threshold_rejected K o). Qed.
+Print Assumptions C05_quick_sampler_vacuum_threshold_rejected.
+
+(* ---- the hypotheses are satisfiable ---- *)
+Example C05_herald_ok_nonvacuous : herald_ok 3 [(2, 1%Z); (0, 0%Z)].
+Proof.
+  split; [constructor; [simpl; intros [H|[]]; discriminate|constructor; [intros []|constructor]]|]. split.
+  - intros k [<-|[<-|[]]]; simpl; lia.
+  - repeat constructor; simpl; lia.
+Qed.
+
+(* a lossy 2-mode circuit with one photon: the Analyzer (over the reals) accepts,
+   so C05_analyzer_eq_sampler / C05_performance_... speak about something *)
+Example C05_analyzer_accepts_nonvacuous :
+  forall U : @mat C, exists r, analyze rops 2 1 U [] [] (fun _ => Ok true) [[1%Z; 0%Z]; [0%Z; 1%Z]] None = Ok r.
+Proof.
+  intros U. apply (analyzer_total_partial rops 2 1 U [] [] (fun _ => Ok true) [[1%Z; 0%Z]; [0%Z; 1%Z]] None).
+  - simpl. lia.
+  - split; [constructor|split; [intros k []|constructor]].
+  - split; [constructor|split; [intros k []|constructor]].
+  - reflexivity.
+  - constructor.
+  - constructor.
+  - discriminate.
+  - repeat constructor; simpl; lia.
+  - reflexivity.
+  - intros s. exists true. reflexivity.
+  - exists [1; 0]. split; [simpl; tauto|reflexivity].
+  - exact I.
+Qed.
+
+Example C05_identity_is_unitary_nonvacuous : forall n, lunit cops n (mid cops).
+Proof. exact (fun n => lunit_mid (o:=cops) n). Qed.
